@@ -112,12 +112,17 @@ structure World where
   hasLocker : Bool := false
   /-- specifiers with scheme http / https -/
   remote : List Spec := []
+  /-- what the loader answers when it bypasses its cache, where that differs (the remote server
+  changed since the cached copy was made) -/
+  reloadResp : List (Spec × Resp) := []
   deriving Repr, Inhabited
 
 def World.respOf (w : World) (s : Spec) : Resp := (w.resp.lookup s).getD .missing
 /-- the loader verifies the checksum it is given: module content whose hash differs is rejected -/
+def World.respFor (w : World) (s : Spec) (reload : Bool) : Resp :=
+  if reload then (w.reloadResp.lookup s).getD (w.respOf s) else w.respOf s
 def World.answer (w : World) (s : Spec) (checksum : Option Nat) (reload : Bool) : Resp :=
-  match w.respOf s with
+  match w.respFor s reload with
   | .module f =>
     match checksum with
     | some c =>
